@@ -71,6 +71,24 @@ seed={
 'C12-c-1':('lazy: trace logging lists (and thereby forces) every variable: results depend on the process log level',False,'process log level as an environment dimension (sink logger that formats every record)'),
 'C12-c-2':('process-wide cache of compiled scan regexes with a stale index after eviction (> 64 patterns)',False,'sub-check (e): re-load texts that are 150-700 loads old; thousands of distinct scan patterns'),
 'C12-c-3':('synthetic full-match capture named from a process-wide counter: diagnostics differ per load',True,''),
+'C04-d-1':('lazy: capture-scoped definitions indexed at `add`, others at `force`; a capture-vs-other duplicate is never compared',False,'definers whose scope is a local alias or a loop variable'),
+'C04-d-2':('lazy: ancestors collected with a TreeCursor descent by byte offset: zero-width nodes are never reached',False,'sources with empty (zero-width) blocks and syntax faults; readers on blocks and on every child node'),
+'C04-d-3':('strict: inherit lookup descends from the root and returns the first (outermost) hit',True,''),
+'C08-d-1':('parser: newline separator dropped between stanza queries in the merged query (a bare `_` query is absorbed)',False,'a stanza whose query is the bare wildcard; panics at load time are caught per order'),
+'C08-d-2':('lazy: stanza capture index used for the full match with debug attributes (wrong match node or panic)',False,'a quarter of the cases run with debug attributes (location attribute dropped, match node kept)'),
+'C08-d-3':('lazy: store reclaimed after matches that "left nothing behind" — print statements not counted',False,'print-only stanzas, also on the last node of the source next to a building stanza'),
+'C09-d-1':('lazy: edges added in bulk with an unstable sort before dedup (attributes of existing edges lost beyond ~20 edges)',False,'hub histories: 22-48 nodes, dozens of attributed edges, 10+ re-created'),
+'C09-d-2':('strict: attribute conflict decided on the rendered strings (`1` vs `"1"`)',True,''),
+'C09-d-3':('strict: attributes expanded from a shorthand never conflict',False,'touch programs use an attribute shorthand'),
+'C11-d-1':('lazy: a failed call argument reaches the function through `param()`; variadic stdlib functions read it as "no more parameters"',True,''),
+'C11-d-2':('strict: `check(..).and(value.evaluate(..))` evaluates the attribute value after the poll has signalled',True,''),
+'C11-d-3':('`some`/`none` conditions treat a value that fails to evaluate (incl. `Cancelled`) as absent',True,''),
+'C12-d-1':('parser: merged-query scratch buffer in a `thread_local`, cleared only on success (a rejected load poisons the next one)',False,'rejected loads (parse, check and query errors) as steps of a history'),
+'C12-d-2':('`Identifier` interned in a process-wide pool wiped at 1024 entries, equality by pointer',False,'diverse identifiers; replay by re-running the worker\'s history in a fresh process'),
+'C12-d-3':('`Functions` copy-on-write over a cached stdlib table: `add` by a sole owner modifies the cache',False,'another caller\'s function table (override + extra function) built first and kept alive'),
+'C19-d-1':('`--global` declared with `multiple_values(true)`: a following positional is swallowed',True,''),
+'C19-d-2':('file reader appends a newline to files that lack one',False,'sources without a final newline; an echo program (module text and extent)'),
+'C19-d-3':('`--global` name and value trimmed',False,'global values with leading/trailing blanks; echo program'),
 'C19-a-1':('`--output` file opened without truncation',True,''),
 'C19-a-2':('parse-error discovery skips MISSING anonymous tokens',False,'MISSING-token-only syntax faults in sources'),
 'C19-b-1':('`--global` values split at commas',False,'global values with commas, option-like and quoted values'),
@@ -87,9 +105,9 @@ for k in sorted(mut):
 n=len(seed); first=sum(1 for v in seed.values() if v[1]); now=sum(1 for k in seed if status.get(f'seeded/{k}/patch.diff')=='caught')
 text=f'''### 10.3 Seeded changes (written by independent sub-agents) and my own mutants
 
-{n} changes were written in three waves by sub-agents that were given only the text of one
-property and a scratch worktree (second and third wave: also one-line descriptions of the
-ideas already explored, and in the third wave a focus area, to force different mechanisms).
+{n} changes were written in four waves by sub-agents that were given only the text of one
+property and a scratch worktree (later waves: also one-line descriptions of the
+ideas already explored and a focus area, to force different mechanisms).
 Every change compiles and passes the 162 tests + doctest; each has a demonstration that fails
 with it and passes without; I confirmed all of that myself in the worktrees before keeping it
 under `/verif/seeded/`. "First attempt" is the result of the checks as they were when the
